@@ -146,9 +146,48 @@ func c08nonNilKnown(v ssa.Value, facts []c08fact) bool {
 	if isNil, ok := c08nilKnown(v, facts); ok && !isNil {
 		return true
 	}
-	return c08factKnows(facts, func(c ssa.Value, truth bool, _ c08ctx) bool {
-		empty, ok := c08emptyTest(c, truth, func(x ssa.Value) bool { return x == v })
+	return c08factKnows(facts, func(c ssa.Value, truth bool, ctx c08ctx) bool {
+		// (inside a predicate helper - hasValues(vals) - the subject is the helper's parameter: c08sameIn maps it back)
+		empty, ok := c08emptyTest(c, truth, func(x ssa.Value) bool { return c08sameIn(x, ctx, v) })
 		return ok && !empty
+	})
+}
+
+// c08sameIn: x, read in call context ctx, is the value v (directly, or as the helper parameter v is passed for).
+func c08sameIn(x ssa.Value, ctx c08ctx, v ssa.Value) bool {
+	if x == v {
+		return true
+	}
+	rx, _ := c08arg(x, ctx)
+	return rx == v || c08strip(rx) == c08strip(v)
+}
+
+// c08keyExcludesXFF: a fact says the computed key of a direct store is not X-Forwarded-For
+// (`if k == "X-Forwarded-For" { continue }`, a switch case, strings.EqualFold, a predicate helper on the key).
+func c08keyExcludesXFF(key ssa.Value, facts []c08fact) bool {
+	isXFF := func(v ssa.Value, ctx c08ctx) bool {
+		r, _ := c08arg(v, ctx)
+		s, ok := constString(r)
+		return ok && textproto.CanonicalMIMEHeaderKey(s) == c08xffKey
+	}
+	return c08factKnows(facts, func(c ssa.Value, truth bool, ctx c08ctx) bool {
+		switch x := c.(type) {
+		case *ssa.BinOp:
+			if x.Op != token.EQL && x.Op != token.NEQ {
+				return false
+			}
+			for _, p := range [][2]ssa.Value{{x.X, x.Y}, {x.Y, x.X}} {
+				if isXFF(p[0], ctx) && c08sameIn(p[1], ctx, key) {
+					return (x.Op == token.NEQ) == truth
+				}
+			}
+		case *ssa.Call:
+			if calleeName(&x.Call) == "strings.EqualFold" && len(x.Call.Args) == 2 && !truth {
+				a, b := x.Call.Args[0], x.Call.Args[1]
+				return (isXFF(a, ctx) && c08sameIn(b, ctx, key)) || (isXFF(b, ctx) && c08sameIn(a, ctx, key))
+			}
+		}
+		return false
 	})
 }
 
@@ -417,6 +456,10 @@ func runC08X4(c *Ctx) {
 				}
 			case "cfg":
 				continue // a configured header name: the operator's choice, not X-Forwarded-For by construction
+			default:
+				if c08keyExcludesXFF(mu.Key, c08facts(mu.Block(), ka.ctx)) {
+					continue // a computed key that the code has just told apart from X-Forwarded-For
+				}
 			}
 			nStores++
 			keyText := "X-Forwarded-For"
